@@ -11,7 +11,8 @@
       reference structure is acyclic;
     * arrays are single-byte;
     * every explicit offset is at least the end of the preceding members and
-      every explicit blockLength is at least the end of the last field;
+      every explicit blockLength is at least the end of the last field; every
+      non-constant member ends at or before 2^64 − 1;
     * level headers (message / group / data) have their required members,
       each a non-array, non-constant type (or a ref to one).
 
@@ -39,6 +40,8 @@ inductive DiagClass
   | nonCharConstantLength | arrayNotSingleByte | notAType | encodingTypeLength
   | enumTypeNotIntegral | setTypeNotUnsigned | choiceIndexOutOfRange | offsetTooSmall
   | cyclicReference
+  -- a non-constant member must end at or before 2^64 − 1 (`offset_t` holds every running offset; sbeppc fix 0032)
+  | offsetOverflow
   -- SBE validator: level headers
   | headerUnknown | headerNotComposite | headerMissingElement | headerElementKind
   | headerElementRefKind | headerElementArray | headerElementConstant | varDataLength
@@ -596,11 +599,19 @@ def enumValueKey (prim : String) (v : ValidValue) : String :=
 def choiceViol (prim : String) (p : Path) (c : Choice) : Option Viol :=
   if c.index < 8 * (primBytes prim).getD 0 then none else some (.choiceIndexOutOfRange, p ++ [c.name])
 
-/-- an explicit offset is not below the running minimum -/
-def offsetViol (p : Path) (x : Elem × Nat) : Option Viol :=
-  match elemOffset x.1 with
-  | some o => if o < x.2 then some (.offsetTooSmall, p ++ [x.1.name]) else none
+/-- a member of `size` bytes placed at `off` ends at or before 2^64 − 1 -/
+def overflowViol (q : Path) (size : Option Nat) (off : Nat) : Option Viol :=
+  match size with
+  | some sz => if u64Max < off + sz then some (.offsetOverflow, q) else none
   | none => none
+
+/-- an explicit offset is not below the running minimum, and the member (at its explicit offset, else at the
+    running minimum) ends at or before 2^64 − 1 -/
+def offsetViol (types : List Elem) (p : Path) (x : Elem × Nat) : Option Viol :=
+  match elemOffset x.1 with
+  | some o => if o < x.2 then some (.offsetTooSmall, p ++ [x.1.name])
+              else overflowViol (p ++ [x.1.name]) (sizeOf types x.1) o
+  | none => overflowViol (p ++ [x.1.name]) (sizeOf types x.1) x.2
 
 def elemViols (types : List Elem) (p : Path) : Elem → List Viol
   | .type t => typeViols types p t
@@ -618,7 +629,7 @@ def elemViols (types : List Elem) (p : Path) : Elem → List Viol
      | .ok prim =>
        if !isUnsignedPrim prim then [(.setTypeNotUnsigned, p)] else cs.filterMap (choiceViol prim p))
   | .ref _ ty _ _ => if (findType types ty).isNone then [(.unknownEncoding, p)] else []
-  | .composite _ _ elems _ => (memberMinima types 0 elems).filterMap (offsetViol p)
+  | .composite _ _ elems _ => (memberMinima types 0 elems).filterMap (offsetViol types p)
 
 def cycleViols (s : SchemaDef) : List Viol :=
   s.types.filterMap (fun t => if acyclicBelow s.types t then none else some (.cyclicReference, typePath t))
@@ -735,11 +746,12 @@ def fieldsEnd (types : List Elem) : Nat → List FieldDef → Option Nat
       | some sz => fieldsEnd types (f.offset.getD cur + sz) rest
       | none => none
 
-/-- an explicit field offset is not below the running minimum -/
-def fieldOffsetViol (lp : Path) (x : FieldDef × Nat) : Option Viol :=
+/-- an explicit field offset is not below the running minimum, and the field ends at or before 2^64 − 1 -/
+def fieldOffsetViol (types : List Elem) (lp : Path) (x : FieldDef × Nat) : Option Viol :=
   match x.1.offset with
-  | some o => if o < x.2 then some (.offsetTooSmall, lp ++ [x.1.name]) else none
-  | none => none
+  | some o => if o < x.2 then some (.offsetTooSmall, lp ++ [x.1.name])
+              else overflowViol (lp ++ [x.1.name]) (fieldSize types x.1) o
+  | none => overflowViol (lp ++ [x.1.name]) (fieldSize types x.1) x.2
 
 /-- an explicit blockLength is not below the end of the last field -/
 def blockLengthViols (types : List Elem) (lp : Path) (bl : Option Nat) (fields : List FieldDef) : List Viol :=
@@ -749,7 +761,7 @@ def blockLengthViols (types : List Elem) (lp : Path) (bl : Option Nat) (fields :
 
 def levelViols (types : List Elem) (l : LevelView) : List Viol :=
   l.fields.flatMap (fieldViols types l.path) ++
-  (fieldMinima types 0 l.fields).filterMap (fieldOffsetViol l.path) ++
+  (fieldMinima types 0 l.fields).filterMap (fieldOffsetViol types l.path) ++
   blockLengthViols types l.path l.blockLength l.fields ++
   (match fieldsEnd types 0 l.fields with
    | some e => headerValueViols types l.hdr "blockLength" (l.blockLength.getD e) l.path
